@@ -149,8 +149,44 @@ def vectors_for(rng, ver, n):
         z = {k: T.VALUES["4"][k][0] for k in ("AV", "AC", "AT", "PR", "UI")}
         z.update({k: "N" for k in ("VC", "VI", "VA", "SC", "SI", "SA")})
         out.append(("CVSS:4.0/", z))
+    out.extend(corner_family(ver))
     while len(out) < n:
         out.append((V.rand_prefix(rng, ver), V.rand_metrics(rng, ver, p_opt=rng.choice((0.1, 0.5, 0.9)), p_nd=0.3)))
+    return out
+
+
+def corner_family(ver):
+    """Systematic low / high score corners: least and most exploitable base metrics x all
+    impact combinations x requirement / distribution extremes (scores near 0 and 10,
+    where clamps and caps are active)."""
+    import itertools
+    out = []
+    if ver == "2":
+        for ex in ({"AV": "L", "AC": "H", "Au": "M"}, {"AV": "N", "AC": "L", "Au": "N"}):
+            for c, i, a in itertools.product("NPC", repeat=3):
+                for cr, ir, ar in itertools.product(("L", None, "H"), repeat=3):
+                    for td in (None, "L", "H"):
+                        m = dict(ex, C=c, I=i, A=a)
+                        for k, v in (("CR", cr), ("IR", ir), ("AR", ar), ("TD", td)):
+                            if v:
+                                m[k] = v
+                        if len(m) > 6:
+                            out.append(("", m))
+    elif ver == "3":
+        for p in T.PREFIXES["3"]:
+            for ex in ({"AV": "P", "AC": "H", "PR": "H", "UI": "R"}, {"AV": "N", "AC": "L", "PR": "N", "UI": "N"}):
+                for sc in "UC":
+                    for c, i, a in itertools.product("HLN", repeat=3):
+                        for req in ("L", "H"):
+                            m = dict(ex, S=sc, C=c, I=i, A=a, CR=req, IR=req, AR=req, E="U", RL="O", RC="U")
+                            out.append((p, m))
+    else:
+        for ex in ({"AV": "P", "AC": "H", "AT": "P", "PR": "H", "UI": "A"}, {"AV": "N", "AC": "L", "AT": "N", "PR": "N", "UI": "N"}):
+            for vc, vi, va in itertools.product("HLN", repeat=3):
+                for sub in ("N", "L", "H"):
+                    for e in ("U", "A"):
+                        m = dict(ex, VC=vc, VI=vi, VA=va, SC=sub, SI=sub, SA=sub, E=e, CR="L", IR="L", AR="L")
+                        out.append(("CVSS:4.0/", m))
     return out
 
 
@@ -162,7 +198,11 @@ def shard(P, ver, idx, nshards, n, seed):
     for j, (p, m) in enumerate(work):
         if j % nshards != idx:
             continue
-        for order in ("official", "shuffle"):
+        spellings = [(p, "official"), (p, "shuffle")]
+        if ver == "3":
+            # the 3.0 / 3.1 twin with the SAME metrics right afterwards in the same process
+            spellings.append(("CVSS:3.1/" if p == "CVSS:3.0/" else "CVSS:3.0/", "official"))
+        for p, order in spellings:
             s = V.spell(p, m, order, rng2)
             ok, o = obs.call(lib().CLS[ver], s)
             if not ok:
